@@ -664,7 +664,7 @@ Ltac cg ce ce' :=
 Lemma comp_ghost : forall q ce ce', ce_env ce = ce_env ce' -> ce_lbls ce = ce_lbls ce' ->
   forall tp cur pc nv sn, compg tco q ce tp cur pc nv sn = compg tco q ce' tp cur pc nv sn.
 Proof.
-  qind q; intros ce ce' He Hl tp cur pc nv sn; cbn -[Nat.add Nat.ltb Nat.eqb ce_lt prelude param_env param_slots comp_args tl_body tail_call tl_fb emptycode];
+  qind q; intros ce ce' He Hl tp cur pc nv sn; cbn -[Nat.add Nat.ltb Nat.eqb ce_lt prelude param_env param_slots comp_args tl_body tail_call tl_fb emptycode transparent];
     try reflexivity; unfold ce_lt; rewrite ?He, ?Hl.
   - cg ce ce'.
   - cg ce ce'.
@@ -700,9 +700,9 @@ Qed.
 Lemma comp_forbid : forall pe q ce cur pc nv sn r,
   compg tco q ce (Some (pe, None)) cur pc nv sn = Some r -> compg tco q ce None cur pc nv sn = Some r.
 Proof.
-  intros pe. qind q; intros ce cur pc nv sn r Hc; cbn -[Nat.add Nat.ltb Nat.eqb ce_lt prelude param_env param_slots comp_args tl_body emptycode] in Hc |- *;
+  intros pe. qind q; intros ce cur pc nv sn r Hc; cbn -[Nat.add Nat.ltb Nat.eqb ce_lt prelude param_env param_slots comp_args tl_body emptycode transparent] in Hc |- *;
     try exact Hc;
-    try (destruct (emptycode b));
+    try (destruct (transparent b));
     repeat match goal with
     | Hc : context [match compg ?t ?q0 ?ce0 ?tp ?c ?p ?n ?s with _ => _ end] |- _ =>
         let E := fresh "E" in destruct (compg t q0 ce0 tp c p n s) as [[[? ?] ?]|] eqn:E; [|discriminate Hc];
